@@ -746,8 +746,137 @@ def rule_varint(R):
         c = panics.canon_cmp(si["subject"])
         if c and c[0] == "<=" and c[1].startswith("5_") and "read_bytes" in c[2]:
             ok_five = True
+        sj = peel(si["subject"])
+        if not ok_five and sj[0] == "bin" and sj[1] in ("Le", "Lt", "Ge", "Gt"):
+            # the same threshold spelled with constants (`1 + MAX_LENGTH_BYTES`): folded before it is compared
+            from .c09 import _linear
+            a, b_, op = sj[2], sj[3], sj[1]
+            if op in ("Ge", "Gt"):
+                a, b_, op = b_, a, {"Ge": "Le", "Gt": "Lt"}[op]
+            la = _linear(a)
+            if la is not None and set(la) == {1} and la[1] == (5 if op == "Le" else 4) and "read_bytes" in show(b_) \
+                    and not any(x[0] == "bin" for x in walk(peel(b_))):
+                ok_five = True
     R.ob("varint/reader-probe", ok_take and ok_five,
          "the reader resolves the packet length from at most four length bytes and fails once five header bytes gave none", where=pf.span)
+
+def _varint_reader_shape(f, b0, shift_ok):
+    """the constants of one variable-byte-integer reader body: (masks, accumulations) where masks is the multiset of `& k`
+    constants and accumulations lists (op, shifted-by-a-recognised-shift, left operand carries the 7-bit group) for every
+    `acc = acc <op> (group << shift)`"""
+    def cst(t):
+        t = peel(t)
+        for _ in range(4):
+            if t[0] == "cast":
+                t = peel(t[2])
+            elif is_call(t, "From::from", "from", "Into::into", "into") and len(t[3]) == 1:
+                t = peel(t[3][0])
+            else:
+                break
+        return t[2] if t[0] == "const" and isinstance(t[2], int) else None
+    def has_group(t, depth=0):
+        t = peel(t)
+        if depth > 8:
+            return False
+        if t[0] == "bin" and t[1] in ("BitAnd", "Rem", "RemWithOverflow"):
+            k = cst(t[3]) if cst(t[3]) is not None else cst(t[2])
+            return (t[1] == "BitAnd" and k == 127) or (t[1] != "BitAnd" and k == 128)
+        if is_call(t, "core::ops::BitAnd::bitand", "BitAnd::bitand") and len(t[3]) == 2:
+            return 127 in (cst(t[3][0]), cst(t[3][1]))        # `&u8 & 0x7F` goes through the operator trait
+        if t[0] == "cast":
+            return has_group(t[2], depth + 1)
+        if t[0] == "field":
+            return has_group(t[1], depth + 1)
+        if t[0] == "phi":
+            return any(has_group(a, depth + 1) for a in t[1])
+        if is_call(t, "From::from", "from", "Into::into", "into") and len(t[3]) == 1:
+            return has_group(t[3][0], depth + 1)
+        return False
+    masks, shls, accs, odd = [], [], [], []
+    bodies = [b0] + [c for c in f.children(b0) if c.kind == "closure"]
+    for b in bodies:
+        for bb, j, s_ in b.assigns():
+            rv = s_["rv"]
+            if bb not in b.reachable or "bin" not in rv:
+                continue
+            op = rv["bin"]
+            t = peel(b.rvalue_term(rv))
+            if t[0] == "field":
+                t = peel(t[1])
+            if t[0] != "bin":
+                continue
+            if op == "BitAnd":
+                k = cst(t[3]) if cst(t[3]) is not None else cst(t[2])
+                masks.append(k)
+            elif op in ("Shl", "ShlUnchecked"):
+                shls.append((has_group(t[2]), shift_ok(b, t[3], cst), s_["dst"]["l"], bb))
+            elif op in ("Shr", "ShrUnchecked", "BitXor"):
+                odd.append(op)
+        for c in b.calls.values():
+            if c.bb in b.reachable and c.is_("core::ops::BitAnd::bitand") and len(c.args) == 2:
+                ks = [cst(b.operand_term(a)) for a in c.args]
+                masks.append(ks[1] if ks[1] is not None else ks[0])
+        for bb, j, s_ in b.assigns():
+            rv = s_["rv"]
+            if bb not in b.reachable or "bin" not in rv or rv["bin"] not in ("BitOr", "Add", "AddWithOverflow"):
+                continue
+            ops = rv.get("ops") or rv.get("args") or []
+            t = peel(b.rvalue_term(rv))
+            if t[0] == "field":
+                t = peel(t[1])
+            if t[0] != "bin":
+                continue
+            sides = [peel(t[2]), peel(t[3])]
+            sh = [x for x in sides if x[0] == "bin" and x[1] in ("Shl", "ShlUnchecked")]
+            if sh:
+                accs.append((rv["bin"], sh[0]))
+    # `.map(|(index, value)| group << (index * 7)).sum()`: the fold is the accumulation
+    for b in bodies:
+        for c in b.calls.values():
+            if c.bb in b.reachable and c.is_("Iterator::sum", "core::iter::Iterator::sum") and shls:
+                accs.append(("sum", None))
+    return masks, shls, accs, odd
+
+
+def rule_varint_reader(R):
+    """the two variable-byte-integer readers (`read_mqtt_u32_varint` for property lengths and varint properties, the packet
+    reader's `probe_fixed_header` for the Remaining Length) accumulate seven value bits per byte, least significant group
+    first: the group is `byte & 0x7F`, the terminator test looks at `byte & 0x80`, and the group enters the value shifted by
+    7 x (byte index) and *combined* with what was read so far (`|=` / `+=`).  Read off the constants; the length clauses
+    (four bytes, 28 bits, overlong) are `varint/*` above."""
+    f = R.f
+    rv = roles.free_fn(f, "read_mqtt_u32_varint")
+    pf = roles.method(f, roles.READER, "probe_fixed_header")
+    R.touch(rv)
+    R.touch(pf)
+    def shift_is_loop_var(b, t, cst):
+        # the shift is the loop variable of `for shift in [0, 7, 14, 21]` (its values are `varint/four-bytes`)
+        t = peel(t)
+        for _ in range(3):
+            if t[0] == "cast":
+                t = peel(t[2])
+        return t[0] == "field" or (t[0] == "phi") or (t[0] == "call")
+    def shift_is_index_times_7(b, t, cst):
+        t = peel(t)
+        for _ in range(3):
+            if t[0] == "cast":
+                t = peel(t[2])
+        if t[0] == "field":
+            t = peel(t[1])
+        return t[0] == "bin" and t[1] in ("Mul", "MulWithOverflow") and 7 in (cst(t[2]), cst(t[3]))
+    for name, b, shift_ok in (("value", rv, shift_is_loop_var), ("remaining-length", pf, shift_is_index_times_7)):
+        masks, shls, accs, odd = _varint_reader_shape(f, b, shift_ok)
+        R.ob("varint/reader/%s/group" % name, sorted(masks) == [127, 128],
+             "each byte contributes `byte & 0x7F` and ends the integer when `byte & 0x80` is clear (found masks %s)"
+             % [hex(m) if m is not None else "?" for m in masks], where=b.span)
+        oks = len(shls) == 1 and shls[0][0] and shls[0][1] and not odd
+        R.ob("varint/reader/%s/shift" % name, oks,
+             "the seven-bit group is shifted left by 7 x its byte index (found %d shift(s)%s%s)"
+             % (len(shls), "" if not shls or shls[0][0] else ", not of the 7-bit group",
+                "" if not shls or shls[0][1] else ", by something else"), where=b.span)
+        R.ob("varint/reader/%s/accumulate" % name, len(accs) == 1,
+             "the shifted group is combined (`|=` / `+=`) with the groups read so far (found %d accumulation(s))" % len(accs), where=b.span)
+    R.floor("varint/reader", 6, 6, "clauses")
 
 
 def rule_latch(R):
@@ -865,5 +994,6 @@ def run(R):
     R.rule("unreachable", rule_unreachable)
     R.rule("tables", rule_tables)
     R.rule("varint", rule_varint)
+    R.rule("varint-reader", rule_varint_reader)
     R.rule("latch", rule_latch)
     R.rule("atomic", rule_atomic)
